@@ -167,6 +167,58 @@ def run_driver(lines, timeout=600):
     return out
 
 
+# ---------------------------------------------------------------- source coverage of the anchored code
+def repo_root():
+    return os.environ.get("VERIF_REPO") or "/repo"
+
+
+def anchored_files(prop_id):
+    for line in open(os.path.join(ROOT, "properties.jsonl")):
+        p = json.loads(line)
+        if p["id"] == prop_id:
+            return [f for f in p["anchors"]["files"] if f.endswith(".py")]
+    return []
+
+
+def start_source_coverage(prop_id, tier):
+    """
+    Measures which statements / branches of the property's anchored source files the run executes
+    (thorough tier, or VERIF_COV=1).  This is evidence about the reach of the correspondence check (the tie
+    between model and code is only as good as the code the generators drive), not a verdict.
+    Only the harness process is measured (C12 / C19 shard part of their cases over worker processes).
+    """
+    if not (tier == "thorough" or os.environ.get("VERIF_COV") == "1"):
+        return None
+    try:
+        import coverage
+        cov = coverage.Coverage(include=[os.path.join(repo_root(), "menelaus", "*")], branch=True, data_file=None)
+        cov.start()
+        return cov
+    except Exception:
+        return None
+
+
+def stop_source_coverage(cov, ctx, prop_id):
+    if cov is None:
+        return
+    try:
+        cov.stop()
+        rep = {}
+        for rel in anchored_files(prop_id):
+            path = os.path.join(repo_root(), rel)
+            try:
+                an = cov._analyze(path)
+                n = an.numbers
+                rep[rel] = {"statements": n.n_statements, "executed": n.n_statements - n.n_missing,
+                            "branches": n.n_branches, "branches_missed": n.n_missing_branches,
+                            "missing_lines": sorted(an.missing)[:80]}
+            except Exception as e:
+                rep[rel] = {"error": str(e)[:100]}
+        ctx.extra["source_coverage_of_anchored_files"] = rep
+    except Exception:
+        ctx.extra["source_coverage_of_anchored_files"] = {"error": traceback.format_exc()[-300:]}
+
+
 # ---------------------------------------------------------------- known findings
 def load_known():
     """known-findings.txt: `known: property=<id> <text> ## <json signature>` / `fixed: ...`"""
